@@ -60,7 +60,8 @@ impl FromStr for Class {
     type Err = &'static str;
 
     fn from_str(text: &str) -> Result<Self, Self::Err> {
-        match Caseless(text) {
+        let upper = text.to_ascii_uppercase();
+        match Caseless(&upper) {
             Caseless("IN") => Ok(Self::IN),
             Caseless("CH") => Ok(Self::CH),
             Caseless("HS") => Ok(Self::HS),
